@@ -219,9 +219,19 @@ func minimize(prob *Problem, method Method, settings *Settings, converger Conver
 		nTasks = 1
 	}
 	has := availFromProblem(*prob)
-	_, initErr := method.Uses(has)
+	uses, initErr := method.Uses(has)
 	if initErr != nil {
 		panic(fmt.Sprintf("optimize: specified method inconsistent with Problem: %v", initErr))
+	}
+	// Initial values that the method does not use would never be updated
+	// by it and would be reported for a different location.
+	if !uses.Grad {
+		initLoc.Gradient = nil
+		initOp &^= GradEvaluation
+	}
+	if !uses.Hess {
+		initLoc.Hessian = nil
+		initOp &^= HessEvaluation
 	}
 	newNTasks := method.Init(dim, nTasks)
 	if newNTasks > nTasks {
